@@ -38,11 +38,14 @@ def model_from_dict(wb, default_sheet=None):
 
 def name_target(ast, quote=True):
     """text of a defined name's target as the workbook stores it"""
+    # (absolute, as Excel writes them, unless the flags say otherwise: a name
+    # may also be bound through a mixed or relative reference)
     if ast[0] == 'ref':
-        a = ('ref', ast[1], ast[2], ast[3], True, True)
+        a = ('ref', ast[1], ast[2], ast[3],
+             ast[4] if len(ast) > 4 else True, ast[5] if len(ast) > 5 else True)
     else:
         a = ('rng', ast[1], ast[2], ast[3], ast[4], ast[5],
-             (True, True, True, True))
+             ast[6] if len(ast) > 6 else (True, True, True, True))
     return ref.render_ref(a)
 
 
